@@ -12,7 +12,7 @@
 From Coq Require Import ZArith List Bool.
 From Hts Require Import Base.Prim Base.WrList Generated Model.Bgzf Model.Writer Model.WriterConc
   Model.Flat Model.Reader Proofs.Bgzf Proofs.Writer Proofs.WriterConc Proofs.WriterThms Proofs.WrSkel Proofs.WriterTerm
-  Proofs.ReaderFlat Proofs.ReaderStore Proofs.WriterReader Proofs.WriterReaderThms.
+  Proofs.ReaderFlat Proofs.ReaderStore Proofs.WriterReader Proofs.WriterReaderThms Model.WriterEnabled Proofs.WriterProgress.
 Import ListNotations.
 Open Scope Z_scope.
 
@@ -97,6 +97,26 @@ Theorem closed_writer_is_quiescent :
     s_eof (x_api st) = true -> quiescent st.
 Proof. exact closed_quiescent_gen. Qed.
 Print Assumptions closed_writer_is_quiescent.
+
+(** No deadlock: for every wc, script and schedule (fault-free underlying
+    writer), in every reachable state in which the caller has not finished its
+    script, the caller, the emitter or a compressor goroutine is enabled
+    ([some_enabled]: the guards of the model's channel operations,
+    Model/WriterEnabled.v; a thread that is not enabled does not move:
+    [api_blocked_noop], [emit_blocked_noop]).  So no call of the script blocks
+    for ever: the pipeline is never Stuck. *)
+Theorem writer_conc_no_deadlock :
+  forall deflate inflate crc32, codec_laws deflate inflate crc32 ->
+  forall lvl h, hdr_ok h ->
+  forall wc script sched,
+    let st := wr_conc deflate crc32 lvl h wc script sched in
+    cdone st = false -> some_enabled st.
+Proof.
+  exact (fun d i c laws lvl h ok wc script sched =>
+           run_no_stuck d c bgzf_wr_patch_mode bgzf_wr_patch_guard bgzf_wr_overflow_check lvl h no_fault
+                        (fun _ => eq_refl) (proj1 (proj2 laws)) gen_patch_at_12 (proj1 ok) (proj2 ok) wc script sched).
+Qed.
+Print Assumptions writer_conc_no_deadlock.
 
 (** compressBound(BlockSize) <= MaxBlockSize on the regenerated constants, and
     under the size law no default-header member reaches 64 KiB: writeBlock
